@@ -262,7 +262,13 @@ class DAGRunConcurrentManager(DAGRunManagerLike):
                 u - Node
                 v - Node Edge
             """
-            return not self.dag.graph.edges[u, v].get(EdgeField.case_branch)
+            if self.dag.graph.edges[u, v].get(EdgeField.case_branch):
+                return False
+
+            # The candidates of a OneOf are run by _run_oneof itself. A candidate that has been opened must not become
+            # a part of the reduced DAG of somebody who only consumes the OneOf result: its failure is contained by
+            # its own OneOf and says nothing about the consumers.
+            return u not in (self.dag.graph.nodes[v].get(NodeField.oneof_nodes) or ())
 
         def _filter_node(u: str) -> bool:
             """
